@@ -436,6 +436,12 @@ impl<S: AsyncWrite + Unpin + 'static> futures_util::AsyncWrite for AsyncWriteStr
             debug_assert!(self.write_future.is_none());
             ready!(self.as_mut().poll_close_impl())?;
         }
+        // Let a flush that is still in flight finish before buffering more: bytes
+        // written behind its back are not covered by it, and `poll_flush` /
+        // `poll_close` would report success with them still in the buffer.
+        if self.write_future.is_some() {
+            ready!(self.as_mut().poll_flush_impl())?;
+        }
         loop {
             let this = self.as_mut().project();
             poll_future_would_block!(
